@@ -9,6 +9,10 @@ package opshell
 //@   nonnil t, silenceTimer, insertGen
 //@   lock wL protects silenced, lastPlainWrite
 
+// Every writer takes the write lock and then, inside Terminal.Write, the
+// terminal library's own lock; nothing may take them the other way round.
+//@ lockorder Shell.wL < goxterm.Terminal.lock
+
 // ---- Ctrl+O mute (C19) and plain output (C03)
 
 // writePlain: muted => nothing written, the lull clock restarts; not muted =>
@@ -20,7 +24,7 @@ package opshell
 //@   ghost nWrite int = 0
 //@   ghost nReset int = 0
 //@   on call Mutex.Lock(m): sil0 = s.silenced
-//@   on enter io.WriteString(w, str): assert(!sil0 && w == s.t && str == line && nWrite == 0, "only_unmuted_output_is_written_verbatim_once"); nWrite++
+//@   on enter io.WriteString(w, str): assert(!sil0 && w == s.t && str == line && nWrite == 0, "only_unmuted_output_is_written_verbatim_once"); nWrite++; takes("goxterm.Terminal.lock")
 //@   on enter Shell.resetSilenceTimer(ss, upd): assert(sil0 && ss == s && upd && nReset == 0, "muted_output_restarts_the_lull_clock"); nReset++
 //@   exit: assert(s.silenced == sil0, "writePlain_never_changes_muting")
 //@   ensures muted_suppresses: imp(sil0, nWrite == 0 && nReset == 1 && err == nil)
@@ -31,7 +35,7 @@ package opshell
 //@   locals s color noTS format v
 //@   props C19 C10
 //@   ghost k int = 0
-//@   on enter logf(w, esc, c, nts, f, vv): assert(w == s.t && c == color && f == format && vv == v && imp(noTS, nts), "always_passed_to_the_terminal_writer_unchanged"); k++
+//@   on enter logf(w, esc, c, nts, f, vv): assert(w == s.t && c == color && f == format && vv == v && imp(noTS, nts), "always_passed_to_the_terminal_writer_unchanged"); k++; takes("goxterm.Terminal.lock")
 //@   ensures always_written: k == 1
 
 //@ func logf(w, escape, color, noTS, format, v) (n, err)
@@ -98,9 +102,15 @@ package opshell
 //@   on go s.Logf(c, nts, f, v): nAnnounce++
 //@   exit: assert(imp(s.silenced != sil0, !s.silenced && !last0.IsZero() && nSince == 1 && since >= PlainWritePause && nAnnounce == 1), "unmute_only_after_a_full_pause_and_announced"); assert(imp(!last0.IsZero() && nSince == 1 && since >= PlainWritePause, !s.silenced), "unmutes_after_a_full_pause"); assert(imp(!last0.IsZero() && nSince == 1 && PlainWritePause > since, nRearm == 1 && s.silenced == sil0), "too_early_rearms_and_stays_muted"); assert(s.lastPlainWrite == last0, "callback_never_moves_the_clock")
 
-// The control-character callback: Ctrl+O mutes (once), other keys never touch muting.
+// The control-character callback runs with the terminal library's lock held
+// (goxterm calls it from its key handler): it must not wait for the write
+// lock, whose holders wait for the terminal's lock.  Ctrl+O therefore mutes in
+// a goroutine of its own (checked inline at its spawn point, where it holds
+// none of its parent's locks): once, under the write lock, announced.  Other
+// keys never touch muting.
 //@ func New#2(key)
 //@   props C19
+//@   holds goxterm.Terminal.lock
 //@   ghost sil0 bool = false
 //@   ghost locked bool = false
 //@   ghost nReset int = 0
@@ -141,7 +151,7 @@ package opshell
 //@   ensures raw_iff_success: iff(raw, err == nil)
 
 // the cleanup function: restore the saved terminal state if there is one, close the tty.
-//@ func New#3()
+//@ func New#4()
 //@   props C20
 //@   nilable oldState
 //@   ghost nRestore int = 0
